@@ -1,5 +1,6 @@
 import DaskModel.DriverLib
 import DaskModel.Model.GraphAlg
+import DaskModel.Model.TaskTermIO
 open Dask
 
 namespace GraphDrv
@@ -44,8 +45,51 @@ def hReverseDict : Handler := handler fun
 
 end GraphDrv
 
+namespace TermDrv
+open Dask.TaskTerm
+
+def hConvert : Handler := handler fun
+  | [keys, o] => do pure (convert (← objs? keys) (← Obj.ofSExp? o)).toSExp
+  | _ => none
+
+def hConvertGraph : Handler := handler fun
+  | [keys, g] => do pure (ofNGraph (convertGraph (← objs? keys) (← lgraph? g)))
+  | _ => none
+
+def hCoreGet : Handler := handler fun
+  | [g, k] => do pure (ofOptObj (coreGet (← lgraph? g) (← Obj.ofSExp? k)))
+  | _ => none
+
+def hLegacyGet : Handler := handler fun
+  | [g, k] => do pure (ofOptObj (legacyGet (← lgraph? g) (← Obj.ofSExp? k)))
+  | _ => none
+
+def hEvalNode : Handler := handler fun
+  | [n, env] => do pure (ofOptObj (evalNode (envOf (← lgraph? env)) (← Node.ofSExp? n)))
+  | _ => none
+
+def hDeps : Handler := handler fun
+  | [n] => do pure (.list ((← Node.ofSExp? n).deps.map Obj.toSExp))
+  | _ => none
+
+def hLegacyRefs : Handler := handler fun
+  | [keys, o] => do pure (.list ((legacyRefs (← objs? keys) (← Obj.ofSExp? o)).map Obj.toSExp))
+  | _ => none
+
+def hExecGraph : Handler := handler fun
+  | [g, cache] => do
+    match executeGraph (← ngraph? g) (envOf (← lgraph? cache)) with
+    | some res => pure (.list [.sym "ok", ofLGraph res])
+    | none => pure (.list [.sym "raised"])
+  | _ => none
+
+end TermDrv
+
 def table : List (String × Handler) :=
   [("toposort", GraphDrv.hToposort), ("getcycle", GraphDrv.hGetcycle), ("isdag", GraphDrv.hIsdag),
-   ("reverse_dict", GraphDrv.hReverseDict)]
+   ("reverse_dict", GraphDrv.hReverseDict),
+   ("convert", TermDrv.hConvert), ("convert_graph", TermDrv.hConvertGraph), ("core_get", TermDrv.hCoreGet),
+   ("legacy_get", TermDrv.hLegacyGet), ("eval_node", TermDrv.hEvalNode), ("deps", TermDrv.hDeps),
+   ("exec_graph", TermDrv.hExecGraph), ("legacy_refs", TermDrv.hLegacyRefs)]
 
 def main : IO Unit := runDriver table
